@@ -8,7 +8,7 @@ From TV Require Import Common.Harness C02.Model C02.Law C02.Proofs.
 Import ListNotations.
 Local Open Scope nat_scope.
 
-(* the whole law (Law.v, all 8 clauses) holds at every step of every history *)
+(* the whole law (Law.v, clauses 2-7) holds at every step of every history *)
 Theorem law_holds_on_every_history :
   forall E, wf E = true -> forall ops s i, law_hist E i s (run E s ops) = [].
 Proof. exact run_law. Qed.
